@@ -296,6 +296,12 @@ fn gen_gff(w: &World, d: Dialect) -> Vec<GffModel> {
             let mut key = match w.draw(10) {
                 // a key that extends an earlier key of this record
                 0 if !attrs.is_empty() => format!("{}{}", attrs[w.draw(attrs.len() as u64) as usize].0, gen_attr_string(w, d, false)),
+                // a key that differs from an earlier one only in letter case
+                1 if !attrs.is_empty() => {
+                    let k = &attrs[w.draw(attrs.len() as u64) as usize].0;
+                    let flipped: String = k.chars().map(|c| if c.is_ascii_lowercase() { c.to_ascii_uppercase() } else { c.to_ascii_lowercase() }).collect();
+                    flipped
+                }
                 _ => gen_attr_string(w, d, true),
             };
             while attrs.iter().any(|(k, _)| *k == key) {
